@@ -813,6 +813,12 @@ def generate(ctx):
         for order in ("noroi", "rowmajor", "within_rows", "serpentine", "random"):
             for rep in range(3 if quick else 8):
                 yield from emit(f"bruker/{order}/{'with' if rep % 2 else 'no'}-not-indexed", bruker_case(rng, rep % 2 == 1, order))
+        # after files with region-of-interest orderings: files without a region of interest, with and without an (empty) SEM
+        # group - nothing of an earlier file may carry over
+        for rep in range(2 if quick else 6):
+            cb = bruker_case(rng, rep % 2 == 1, "noroi")
+            cb["layout"]["no_sem_group"] = bool(rep % 2 == 0)
+            yield from emit(f"bruker/noroi_after_roi/{'no_sem_group' if cb['layout']['no_sem_group'] else 'empty_sem_group'}", cb)
         for refined in (False, True):
             for rep in range(5 if quick else 10):
                 yield from emit(f"emsoft_h5/{'refined' if refined else 'dictionary'}", emsoft_case(rng, refined))
